@@ -877,9 +877,13 @@ MANIFEST_ENTRY = {
              'vortex(rotate) = R(-rotate) vortex(0) R(rotate), retarder(d1) retarder(d2) = retarder(d1+d2), defaults omitted = documented defaults, '
              'purity (same argument arrays twice: same answer, arrays untouched) of the array-taking functions, batched orientation / '
              'diattenuation / jones_to_mueller(broadcast=False), adapter with keyword-only and no extra arguments, all on the real code; '
-             'apply_polarization_optic (2-D fields).'),
+             'apply_polarization_optic (2-D fields). Session 3: linear_pol_vector (array and scalar branch writes, degree conversion, default unit) and circular_pol_vector '
+             '(writes per handedness, default, rejection of unknown handedness) are TRANSLATED; PROVED: both have unit intensity and left is orthogonal to right; the generated polariser applied to the '
+             'generated linear vector gives (c c\' + s s\')(c, s), i.e. intensity cos^2(theta - phi) with Real.cos (Malus with the library\'s own constructors); circular light through an ideal '
+             'polariser keeps half its intensity at every orientation. MODELLED AND COMPARED: both vector constructors and polariser @ vector; on the real code also array angle grids vs scalar calls, '
+             'degrees default, QWP at 45 deg makes a circular state.'),
     'note': ('Trusted: Lean kernel + standard axioms; translator (incl. reading jones_rotation_matrix(-theta) as (cos theta, -sin theta)); '
-             'NumPy matmul/einsum/kron/inv; IEEE rounding. Not covered: polarisation-vector helpers (circular_pol_vector(shape=...) '
-             'raises IndexError - outside the statement); apply_polarization_optic for ndim != 2 (docstring and code disagree; outside the '
+             'NumPy matmul/einsum/kron/inv; IEEE rounding. Not covered: circular_pol_vector(shape=...) '
+             '(raises IndexError - outside the statement); apply_polarization_optic for ndim != 2 (docstring and code disagree; outside the '
              'statement); rejection of alpha outside [0,1] (outside the quantifier).'),
 }
